@@ -20,8 +20,8 @@ READY = "self._primary_thread_task_ready"
 
 
 def pool_methods(repo: Repo) -> list[FuncInfo]:
-    ci = repo.cls("WorkerPool")
-    return [m for m in ci.methods.values()]
+    # normal form: new helpers inlined, hoisted / parameter aliases propagated
+    return [m for m in repo.scan_funcs() if m.cls is not None and m.cls.name == "WorkerPool"]
 
 
 def mutations(repo: Repo, fi: FuncInfo):
@@ -144,7 +144,7 @@ def check(ctx: Ctx) -> None:
                         continue
                     ob.site(fi, c, "blocking call under _running_lock")
                     exempt = False
-                    if callee_attr(c) == "waitfinish" and fi.name == "_try_send_to_primary_thread":
+                    if callee_attr(c) == "waitfinish" and fi.name in ("_try_send_to_primary_thread", "spawn") and xtext(repo, fi, c.func.value) == MAILBOX:
                         # frozen exemption: back-pressure of main_thread_only is by design
                         cfg = build_cfg(repo, fi, Oracle(repo, fi, precise=True))
                         for nd in cfg.node_containing(c):
@@ -457,42 +457,40 @@ def check(ctx: Ctx) -> None:
 
     # ---- C09.h started exactly once
     with ctx.obligation("C09.h", "started-once") as ob:
-        starts = [c for c in repo.calls_in(fs) if callee_attr(c) == "start"]
-        sends = [c for c in repo.calls_in(fs) if callee_attr(c) == "_try_send_to_primary_thread"]
-        ob.require(len(starts) == 1 and len(sends) == 1, "spawn anchors (start / _try_send_to_primary_thread) not found exactly once")
-        # start(self._perform_spawn, (reply,))
-        s = starts[0]
-        tgt = unparse(s.args[0]) if s.args else ""
-        if tgt != "self._perform_spawn" or len(s.args) < 2 or "reply" not in unparse(s.args[1]):
-            ob.violation(fs, s, "the fallback thread does not run _perform_spawn(reply)")
-        for path, facts in feasible_paths(repo, fs, cfgs, kill_on_store=False):
-            if path[-1][0] != cfgs.exit.id:
+        from ..terms import NONE as _NONE, const as _c, evaluator as _ev
+        fm = repo.merged(f"{POOL}.spawn", [f"{POOL}._try_send_to_primary_thread"])
+        evm = _ev(repo, fm)
+        BOX, RDY = "self._primary_thread_task", "self._primary_thread_task_ready"
+        npaths = 0
+        for (pth, st_) in evm.run(limit=20000):
+            if pth[-1][0] != evm.cfg.exit.id:
                 continue
-            nstart = sum(1 for nid, _ in path if cfgs.nodes[nid].ast is not None and any(c is s for c in calls_in_node(cfgs.nodes[nid])))
-            handed = facts.get("self._try_send_to_primary_thread(reply)")
-            ob.site(fs, s, "spawn path", handed_to_primary=handed, threads_started=nstart)
-            if handed is None or (handed and nstart != 0) or (not handed and nstart != 1):
-                ob.violation(fs, s, "an accepted reply is not started exactly once (mailbox hand-off xor new thread)",
-                             construct=f"handed={handed} starts={nstart}", path=cfgs.describe_path(path))
-        # returns the reply it registered
-        ft2 = repo.func(f"{POOL}._try_send_to_primary_thread")
-        cf2 = build_cfg(repo, ft2, Oracle(repo, ft2, precise=True))
-        al2 = local_aliases(repo, ft2)
-        for path, facts in feasible_paths(repo, ft2, cf2, kill_on_store=False):
-            last = cf2.nodes[path[-2][0]]
-            val = repo.fold_in(last.ast.value, ft2) if isinstance(last.ast, ast.Return) and last.ast.value is not None else None
-            stores = [cf2.nodes[nid] for nid, _ in path if cf2.nodes[nid].kind == "stmt" and isinstance(cf2.nodes[nid].ast, ast.Assign)
-                      and nexpr(repo, ft2, cf2.nodes[nid].ast.targets[0], al2) == MAILBOX]
-            wakes = [nid for nid, _ in path if cf2.nodes[nid].ast is not None and any(
-                callee_attr(c) == "set" and isinstance(c.func, ast.Attribute) and nexpr(repo, ft2, c.func.value, al2) == READY
-                for c in calls_in_node(cf2.nodes[nid]))]
-            good_store = len(stores) == 1 and unparse(stores[0].ast.value) == "reply"
-            ob.site(ft2, last.ast, f"hand-off path returning {val!r}", stores=len(stores), wakes=len(wakes))
-            if val is True and not (good_store and len(wakes) == 1 and path.index((wakes[0], [l for n, l in path if n == wakes[0]][0])) > [i for i, (n, _) in enumerate(path) if n == stores[0].id][0]):
-                ob.violation(ft2, last.ast, "a path reporting a successful hand-off does not store the reply in the mailbox once and then wake the primary thread",
-                             path=cf2.describe_path(path))
-            if val is not True and (stores or wakes):
-                ob.violation(ft2, last.ast, "a path reporting no hand-off nevertheless touches the mailbox", path=cf2.describe_path(path))
+            npaths += 1
+            replies = [e.result for e in st_.events if e.kind == "call" and e.callee == "Reply"]
+            REPLY = replies[0] if replies else None
+            starts = [e for e in st_.events if e.kind == "call" and e.callee == "self.execmodel.start"]
+            stores = [e for e in st_.events if e.kind == "assign" and e.target == BOX]
+            wakes = [e for e in st_.events if e.kind == "call" and e.callee == f"{RDY}.set"]
+            handed = len(stores) == 1 and stores[0].value == REPLY and any(st_.events.index(w) > st_.events.index(stores[0]) for w in wakes)
+            ob.site(fm, starts[0].node if starts else fm.node, "spawn path", handed_to_primary=handed, threads_started=len(starts))
+            for s_ in starts:
+                if s_.args[:1] != (("sym", "self._perform_spawn"),) or len(s_.args) < 2 or s_.args[1] != ("tuple", REPLY):
+                    ob.violation(fm, s_.node, "the fallback thread does not run _perform_spawn(reply)")
+            if st_.ret != REPLY or REPLY is None:
+                ob.violation(fm, fm.node, "spawn does not return the reply it registered")
+            if (handed and starts) or (not handed and len(starts) != 1) or (stores and not handed) or (wakes and not stores):
+                ob.violation(fm, starts[0].node if starts else fm.node, "an accepted reply is not started exactly once (mailbox hand-off xor new thread)",
+                             construct=f"handed={handed} starts={len(starts)}", path=evm.cfg.describe_path(pth))
+            # mailbox store only with evidence that the slot is free
+            for s_ in stores:
+                cond = dict(st_.cond[:s_.ncond])
+                issets = [e.result for e in st_.events if e.kind == "call" and e.callee == f"{RDY}.is_set" and st_.events.index(e) < st_.events.index(s_)]
+                free = any(cond.get(r) is False for r in issets)
+                done = any(e.kind == "call" and e.callee == f"{BOX}.waitfinish" and not e.args and not e.kwargs and st_.events.index(e) < st_.events.index(s_) for e in st_.events)
+                if not (free or done):
+                    ob.violation(fm, s_.node, "the one-slot mailbox is overwritten without evidence that it is free "
+                                              "(neither `not ready.is_set()` nor completion of the occupant): an accepted task can be dropped")
+        ob.require(npaths >= 3, f"{npaths} normal paths through spawn (floor 3)")
 
     # ---- C09.i timeout paths are pure
     with ctx.obligation("C09.i", "timeout-pure") as ob:
